@@ -177,7 +177,7 @@ var dirtyCheck = hx.NewCheck("parse_after_dirty_release", oracleDirty)
 
 func TestParseAfterDirtyRelease(t *testing.T) {
 	hx.Rule("parse_after_dirty_release", "before each parse every pool is polluted with fully populated values of every pooled type (through PutX, PutExpression and ReleaseAST); the tree parsed from a G-SQL statement must still equal the model tree exactly; non-trivial = statement uses a node kind the parser draws from a pool (tuple, array, subscript, slice) or >= 6 features; distinct = feature set")
-	dirtyCheck.Rapid(t, hx.N(1500, 60000), func(rt *rapid.T) DirtyCase {
+	dirtyCheck.Rapid(t, hx.N(7500, 60000), func(rt *rapid.T) DirtyCase {
 		g := sqlgen.New(rt, sqlgen.AllFeatures())
 		st := sqlgen.Statement(g)
 		var cl []string
@@ -402,7 +402,7 @@ func genHoldSQL(rt *rapid.T) string {
 
 func TestHeldValuesStable(t *testing.T) {
 	hx.Rule("held_values_stable", "histories of parse-and-hold, tokenize-and-hold (tokens and comments; tokenizer kept or returned to the pool), reuse of the pooled tokenizer, derive-and-hold (extracted lists, scan result, formatted text), release of one held tree, churn of parse+release on this and on four other goroutines, recovery-parse-and-hold; after every step every value still held must dump equal to its snapshot; non-trivial = a release or >= 10 churn parses between a hold and a later check; distinct = op kinds")
-	holdCheck.Rapid(t, hx.N(2000, 80000), func(rt *rapid.T) HoldHistory {
+	holdCheck.Rapid(t, hx.N(10000, 80000), func(rt *rapid.T) HoldHistory {
 		n := rapid.IntRange(2, 14).Draw(rt, "nops")
 		var h HoldHistory
 		var kinds []string
